@@ -380,28 +380,79 @@ Proof.
   rewrite filter_filter_and. apply filter_ext. intros e. apply delta_core; assumption.
 Qed.
 
-Lemma last_app_cons : forall {A} (l : list A) x r d, last (l ++ x :: r) d = last (x :: r) d.
+(** ** The mark of a store: the maximum over its frames (sink.rs after c71d768, [mat_sink_mark_last = false]) *)
+
+Lemma mle_zero : forall m, mle (0, 0) m = true.
+Proof. intros m. apply mle_spec. cbn [fst snd]. lia. Qed.
+
+Lemma mark_max_ge_l : forall a b, mle a (mark_max a b) = true.
+Proof. intros a b. unfold mark_max. destruct (mlt a b) eqn:E; [apply mlt_mle; exact E|apply mle_refl]. Qed.
+
+Lemma mark_max_ge_r : forall a b, mle b (mark_max a b) = true.
 Proof.
-  intros A l x r d. induction l as [|y l IH]; [reflexivity|].
-  cbn [app]. change (last (y :: (l ++ x :: r)) d) with (match l ++ x :: r with [] => y | _ => last (l ++ x :: r) d end).
-  destruct (l ++ x :: r) eqn:E; [destruct l; discriminate|]. exact IH.
+  intros a b. unfold mark_max. destruct (mlt a b) eqn:E; [apply mle_refl|]. unfold mle. rewrite E. reflexivity.
 Qed.
 
-Lemma frames_mark_last : forall fs, fs <> [] -> frames_mark fs = frame_mark (last fs []).
-Proof. intros [|x r] H; [contradiction|reflexivity]. Qed.
+Definition fold_mark (z : mark) (fs : list (list event)) : mark :=
+  fold_left (fun m f => mark_max m (frame_mark f)) fs z.
 
-Lemma frames_mark_app : forall fs nf, nf <> [] -> frames_mark (fs ++ nf) = frames_mark nf.
+Lemma frames_mark_fold : forall fs, frames_mark fs = fold_mark (0, 0) fs.
+Proof. reflexivity. Qed.
+
+Lemma fold_mark_ge_start : forall fs z, mle z (fold_mark z fs) = true.
 Proof.
-  intros fs nf H. unfold frames_mark.
-  destruct (fs ++ nf) eqn:E; [apply app_eq_nil in E; destruct E; contradiction|].
-  rewrite <- E. destruct nf as [|x r]; [contradiction|]. rewrite last_app_cons. reflexivity.
+  induction fs as [|f fs IH]; intros z; cbn [fold_mark fold_left]; [apply mle_refl|].
+  eapply mle_trans; [apply mark_max_ge_l|apply IH].
 Qed.
 
-Lemma last_In : forall {A} (l : list A) d, l <> [] -> In (last l d) l.
+Lemma fold_mark_ge_frame : forall fs z f, In f fs -> mle (frame_mark f) (fold_mark z fs) = true.
 Proof.
-  intros A l d. induction l as [|x l IH]; [contradiction|]. intros _.
-  destruct l as [|y r]; [left; reflexivity|]. right. apply IH. discriminate.
+  induction fs as [|g fs IH]; intros z f; cbn [fold_mark fold_left In]; [tauto|].
+  intros [->|H]; [|apply IH; exact H].
+  eapply mle_trans; [apply mark_max_ge_r|apply fold_mark_ge_start].
 Qed.
+
+Lemma fold_mark_attained : forall fs z, fold_mark z fs = z \/ exists f, In f fs /\ fold_mark z fs = frame_mark f.
+Proof.
+  induction fs as [|g fs IH]; intros z; cbn [fold_mark fold_left]; [left; reflexivity|].
+  destruct (IH (mark_max z (frame_mark g))) as [E|[f [Hf E]]].
+  - unfold fold_mark in E. rewrite E. unfold mark_max. destruct (mlt z (frame_mark g)).
+    + right. exists g. split; [left; reflexivity|reflexivity].
+    + left. reflexivity.
+  - right. exists f. split; [right; exact Hf|exact E].
+Qed.
+
+(** the mark is at least the mark of every frame … *)
+Lemma frames_mark_ge_frame : forall fs f, In f fs -> mle (frame_mark f) (frames_mark fs) = true.
+Proof. intros fs f H. rewrite frames_mark_fold. apply fold_mark_ge_frame. exact H. Qed.
+
+(** … hence at least every stored row, whatever the order in which the frames were appended *)
+Lemma frames_mark_ge_row : forall fs f e, In f fs -> In e f -> mle (ekey e) (frames_mark fs) = true.
+Proof.
+  intros fs f e Hf He. eapply mle_trans; [apply frame_mark_ge; exact He|apply frames_mark_ge_frame; exact Hf].
+Qed.
+
+Lemma last_dominates_true : forall fs, last_dominates fs = true.
+Proof.
+  intros fs. unfold last_dominates. apply forallb_forall. intros e He. apply in_concat in He.
+  destruct He as [f [Hf He]]. eapply frames_mark_ge_row; eassumption.
+Qed.
+
+(** … and it is the mark of one of the frames (or (0,0)) *)
+Lemma frames_mark_attained : forall fs, frames_mark fs = (0, 0) \/ exists f, In f fs /\ frames_mark fs = frame_mark f.
+Proof. intros fs. rewrite frames_mark_fold. apply fold_mark_attained. Qed.
+
+Lemma frames_mark_mono : forall fs ap, mle (frames_mark fs) (frames_mark (fs ++ ap)) = true.
+Proof.
+  intros fs ap. destruct (frames_mark_attained fs) as [E|[f [Hf E]]]; rewrite E; [apply mle_zero|].
+  apply frames_mark_ge_frame. apply in_or_app. left. exact Hf.
+Qed.
+
+Lemma mlt_not_mle : forall a b, mlt a b = true -> mle b a = false.
+Proof. intros a b H. unfold mle. rewrite H. reflexivity. Qed.
+
+Lemma mle_mlt_trans : forall a b c, mle a b = true -> mlt b c = true -> mlt a c = true.
+Proof. intros a b c H1 H2. apply mle_spec in H1. apply mlt_spec in H2. apply mlt_spec. lia. Qed.
 
 Lemma lookup_app_none : forall name es n en,
   lookup name es = None -> lookup n (es ++ [(name, en)]) = if name =? n then Some en else lookup n es.
@@ -504,7 +555,7 @@ Proof.
   destruct (q_tf q) eqn:Htf; [|discriminate]. cbn [app] in Hc.
   destruct (q_limit q) eqn:Hlim; [discriminate|]. cbn [app] in Hc.
   destruct (remember_frames q (st_layout st) ch) as [fs|] eqn:R; [|split; assumption].
-  destruct (last_dominates fs) eqn:Ld; [|discriminate].
+  pose proof (last_dominates_true fs) as Ld.
   cbn [fst st_layout st_entries]. split; [exact Hl|].
   intros n en Hlk. cbn [st_entries st_layout] in Hlk |- *. apply in_app_or in Hlk.
   destruct Hlk as [Hlk|[Hlk|[]]]; [apply Hen with n; exact Hlk|].
@@ -537,60 +588,57 @@ Proof.
 Qed.
 
 (** the heart: frames [ap] are appended to a store satisfying the invariant; [ap] and [rest] together are the
-    matching events above the old mark, the last frame of [ap] dominates [ap], nothing of [rest] is at or below the
-    new mark: the invariant holds again, and the mark did not move down *)
+    matching events above the old mark, nothing of [rest] is at or below the mark of [ap]: the invariant holds again,
+    and the mark did not move down.  No condition on the order of the frames: the mark is their maximum. *)
 Lemma append_frames_inv : forall l q fs ap rest,
   Permutation (concat fs) (filter (below q (frames_mark fs)) (content l)) ->
   Permutation (concat ap ++ concat rest) (filter (above q (frames_mark fs)) (content l)) ->
-  (forall f, In f ap -> f <> []) ->
-  (nonempty ap && negb (last_dominates ap) = false) ->
   strands ap rest = false ->
   Permutation (concat (fs ++ ap)) (filter (below q (frames_mark (fs ++ ap))) (content l))
   /\ mle (frames_mark fs) (frames_mark (fs ++ ap)) = true.
 Proof.
-  intros l q fs ap rest Hp Hd Hne Hld Hst.
-  destruct ap as [|f0 r0] eqn:Eap.
-  - rewrite app_nil_r. split; [exact Hp|apply mle_refl].
-  - rewrite <- Eap in *. assert (Hnn : ap <> []) by (rewrite Eap; discriminate).
-    rewrite frames_mark_app by exact Hnn.
-    set (m := frames_mark fs) in *. set (m' := frames_mark ap) in *.
-    assert (Hld' : forall e, In e (concat ap) -> mle (ekey e) m' = true).
-    { assert (X : last_dominates ap = true).
-      { rewrite Eap in Hld. cbn [nonempty andb] in Hld. apply negb_false_iff in Hld. rewrite <- Eap in Hld. exact Hld. }
-      unfold last_dominates in X. rewrite forallb_forall in X. exact X. }
-    assert (Hrest : forall e, In e (concat rest) -> mle (ekey e) m' = false).
-    { intros e He. unfold strands in Hst. rewrite Eap in Hst. cbn [nonempty andb] in Hst. rewrite <- Eap in Hst.
-      destruct (mle (ekey e) m') eqn:X; [|reflexivity]. exfalso.
-      assert (Y : existsb (fun e => mle (ekey e) (frames_mark ap)) (concat rest) = true)
-        by (apply existsb_exists; exists e; split; assumption).
-      congruence. }
-    assert (Hup : mlt m m' = true).
-    { assert (Hin : In (last ap []) ap) by (apply last_In; exact Hnn).
-      pose proof (Hne _ Hin) as Hfne.
-      destruct (last ap []) as [|r rr] eqn:El; [contradiction|].
-      assert (Hr : In r (concat ap ++ concat rest)).
-      { apply in_or_app. left. apply in_concat. exists (r :: rr). split; [exact Hin|left; reflexivity]. }
-      eapply Permutation_in in Hr; [|exact Hd]. apply filter_In in Hr. destruct Hr as [_ Ha].
-      unfold above in Ha. apply andb_true_iff in Ha. destruct Ha as [_ Ha].
-      eapply mlt_mle_trans; [exact Ha|].
-      unfold m'. rewrite (frames_mark_last ap Hnn), El. apply frame_mark_ge. left. reflexivity. }
-    split; [|apply mlt_mle; exact Hup].
-    rewrite concat_app.
-    eapply perm_trans; [|apply Permutation_sym; apply (filter_split_perm (fun e => mle (ekey e) m))].
-    rewrite !filter_filter_and. apply Permutation_app.
-    + eapply perm_trans; [exact Hp|]. apply Permutation_refl'. apply filter_ext. intros e. unfold below.
-      destruct (matches q e); [|reflexivity]. cbn [andb].
-      destruct (mle (ekey e) m) eqn:X; [|rewrite andb_false_r; reflexivity].
-      rewrite (mle_trans _ _ _ X (mlt_mle _ _ Hup)). reflexivity.
-    + (* the matching events above the old mark and at or below the new one are exactly [ap] *)
-      assert (E : filter (fun e => below q m' e && negb (mle (ekey e) m)) (content l)
-                  = filter (fun e => mle (ekey e) m') (filter (above q m) (content l))).
-      { rewrite filter_filter_and. apply filter_ext. intros e. unfold below, above, mle.
-        rewrite negb_involutive. destruct (matches q e); cbn [andb]; [|reflexivity]. apply andb_comm. }
-      rewrite E.
-      eapply perm_trans; [|apply Permutation_filter; exact Hd].
-      rewrite filter_app, (filter_all _ (concat ap)) by exact Hld'.
-      rewrite (filter_none _ (concat rest)) by exact Hrest. rewrite app_nil_r. apply Permutation_refl.
+  intros l q fs ap rest Hp Hd Hst.
+  set (m := frames_mark fs) in *. set (m' := frames_mark (fs ++ ap)).
+  assert (Hmm : mle m m' = true) by apply frames_mark_mono.
+  split; [|exact Hmm].
+  assert (Hap : forall e, In e (concat ap) -> mle (ekey e) m' = true).
+  { intros e He. apply in_concat in He. destruct He as [f [Hf He]].
+    eapply frames_mark_ge_row; [apply in_or_app; right; exact Hf|exact He]. }
+  assert (Habove : forall e, In e (concat ap ++ concat rest) -> mlt m (ekey e) = true).
+  { intros e He. eapply Permutation_in in He; [|exact Hd]. apply filter_In in He. destruct He as [_ Ha].
+    unfold above in Ha. apply andb_true_iff in Ha. apply Ha. }
+  assert (Hrest : forall e, In e (concat rest) -> mle (ekey e) m' = false).
+  { intros e He. apply mlt_not_mle.
+    assert (Hm : mlt m (ekey e) = true) by (apply Habove; apply in_or_app; right; exact He).
+    destruct (frames_mark_attained (fs ++ ap)) as [E|[f [Hf E]]]; fold m' in E; rewrite E.
+    - eapply mle_mlt_trans; [apply mle_zero|exact Hm].
+    - apply in_app_or in Hf. destruct Hf as [Hf|Hf].
+      + eapply mle_mlt_trans; [apply frames_mark_ge_frame; exact Hf|exact Hm].
+      + (* a frame of [ap]: [ap] is not empty, nothing of [rest] is at or below its mark *)
+        unfold strands in Hst. destruct ap as [|a0 r0]; [destruct Hf|]. cbn [nonempty andb] in Hst.
+        assert (X : mle (ekey e) (frames_mark (a0 :: r0)) = false).
+        { destruct (mle (ekey e) (frames_mark (a0 :: r0))) eqn:Y; [|reflexivity]. exfalso.
+          assert (Z : existsb (fun e => mle (ekey e) (frames_mark (a0 :: r0))) (concat rest) = true)
+            by (apply existsb_exists; exists e; split; assumption).
+          congruence. }
+        unfold mle in X. apply negb_false_iff in X.
+        eapply mle_mlt_trans; [apply frames_mark_ge_frame; exact Hf|exact X]. }
+  rewrite concat_app.
+  eapply perm_trans; [|apply Permutation_sym; apply (filter_split_perm (fun e => mle (ekey e) m))].
+  rewrite !filter_filter_and. apply Permutation_app.
+  + eapply perm_trans; [exact Hp|]. apply Permutation_refl'. apply filter_ext. intros e. unfold below.
+    destruct (matches q e); [|reflexivity]. cbn [andb].
+    destruct (mle (ekey e) m) eqn:X; [|rewrite andb_false_r; reflexivity].
+    fold m'. rewrite (mle_trans _ _ _ X Hmm). reflexivity.
+  + (* the matching events above the old mark and at or below the new one are exactly [ap] *)
+    assert (E : filter (fun e => below q m' e && negb (mle (ekey e) m)) (content l)
+                = filter (fun e => mle (ekey e) m') (filter (above q m) (content l))).
+    { rewrite filter_filter_and. apply filter_ext. intros e. unfold below, above, mle.
+      rewrite negb_involutive. destruct (matches q e); cbn [andb]; [|reflexivity]. apply andb_comm. }
+    fold m'. rewrite E.
+    eapply perm_trans; [|apply Permutation_filter; exact Hd].
+    rewrite filter_app, (filter_all _ (concat ap)) by exact Hap.
+    rewrite (filter_none _ (concat rest)) by exact Hrest. rewrite app_nil_r. apply Permutation_refl.
 Qed.
 
 Lemma cat_after_le : forall c m m2, mle c m = true -> mle m m2 = true -> mle (cat_after c m m2) m2 = true.
@@ -603,13 +651,12 @@ Qed.
 Lemma show_step : forall l en ch nf,
   layout_ok l -> entry_inv l en ->
   show_frames (n_q en) (n_frames en) (n_cat en) l ch = Some nf ->
-  (nonempty nf && negb (last_dominates nf) = false) ->
   Permutation (show_output (n_q en) (n_frames en) nf) (sel (n_q en) l)
   /\ entry_inv l (mkEntry (n_q en) (n_frames en ++ nf)
                     (cat_after (n_cat en) (frames_mark (n_frames en)) (frames_mark (n_frames en ++ nf))))
   /\ Permutation (concat nf) (filter (above (n_q en) (frames_mark (n_frames en))) (content l)).
 Proof.
-  intros l [q fs c] ch nf Hl [[Htf Hlim] [Hp Hcat]] Hs Hld. cbn [n_q n_frames n_cat] in *.
+  intros l [q fs c] ch nf Hl [[Htf Hlim] [Hp Hcat]] Hs. cbn [n_q n_frames n_cat] in *.
   unfold show_frames in Hs. change (filter_mark fs c) with (frames_mark fs) in Hs. rewrite Hlim in Hs.
   set (m := frames_mark fs) in *.
   set (fbs := map (show_filter q m) (delta_batches q fs c l)) in *.
@@ -623,8 +670,6 @@ Proof.
     apply Permutation_app; assumption.
   - destruct (append_frames_inv l q fs (frames_of fbs (map fst ch)) [] Hp) as [Hinv Hle].
     + cbn [concat]. rewrite app_nil_r. exact Hd.
-    + intros f Hf. eapply valid_order_nonempty; eassumption.
-    + exact Hld.
     + unfold strands. cbn [concat existsb]. apply andb_false_r.
     + split; [split; assumption|]. cbn [n_q n_frames n_cat]. split; [exact Hinv|].
       apply cat_after_le; assumption.
@@ -635,9 +680,7 @@ Proof.
   intros st name ch [Hl Hen] [Hc _]. cbn [classes_of step] in *.
   destruct (lookup name (st_entries st)) as [en|] eqn:Lk; [|split; assumption].
   destruct (show_frames (n_q en) (n_frames en) (n_cat en) (st_layout st) ch) as [nf|] eqn:S; [|split; assumption].
-  assert (Hld : nonempty nf && negb (last_dominates nf) = false).
-  { destruct (nonempty nf && negb (last_dominates nf)); [discriminate|reflexivity]. }
-  destruct (show_step _ _ _ _ Hl (Hen _ _ (lookup_In _ _ _ Lk)) S Hld) as [_ [Hinv _]].
+  destruct (show_step _ _ _ _ Hl (Hen _ _ (lookup_In _ _ _ Lk)) S) as [_ [Hinv _]].
   cbn [fst st_layout st_entries]. split; [exact Hl|].
   intros n en' Hlk. cbn [st_entries st_layout] in Hlk |- *. apply update_In in Hlk.
   destruct Hlk as [Hlk|[_ Hlk]]; [apply Hen with n; exact Hlk|subst en'; exact Hinv].
@@ -706,11 +749,10 @@ Qed.
 Lemma showfail_step : forall l en ch ap rest,
   layout_ok l -> entry_inv l en ->
   show_fail_frames (n_q en) (n_frames en) (n_cat en) l ch = Some (ap, rest) ->
-  (nonempty ap && negb (last_dominates ap) = false) ->
   strands ap rest = false ->
   entry_inv l (mkEntry (n_q en) (n_frames en ++ ap) (n_cat en)).
 Proof.
-  intros l [q fs c] ch ap rest Hl [[Htf Hlim] [Hp Hcat]] Hs Hld Hst. cbn [n_q n_frames n_cat] in *.
+  intros l [q fs c] ch ap rest Hl [[Htf Hlim] [Hp Hcat]] Hs Hst. cbn [n_q n_frames n_cat] in *.
   unfold show_fail_frames in Hs. change (filter_mark fs c) with (frames_mark fs) in Hs. rewrite Hlim in Hs.
   set (m := frames_mark fs) in *.
   set (fbs := map (show_filter q m) (delta_batches q fs c l)) in *.
@@ -718,8 +760,6 @@ Proof.
   destruct (append_frames_inv l q fs (frames_of fbs (map fst ch)) (rest_of fbs (map fst ch)) Hp) as [Hinv Hle].
   - eapply perm_trans; [apply valid_prefix_split; exact V|]. unfold fbs, m.
     rewrite delta_rows; [apply Permutation_refl|exact Htf|apply Hl|exact Hcat].
-  - intros f Hf. eapply valid_prefix_nonempty; eassumption.
-  - exact Hld.
   - exact Hst.
   - split; [split; assumption|]. cbn [n_q n_frames n_cat]. split; [exact Hinv|].
     eapply mle_trans; eassumption.
@@ -732,10 +772,8 @@ Proof.
   destruct (lookup name (st_entries st)) as [en|] eqn:Lk; [|split; assumption].
   destruct (show_fail_frames (n_q en) (n_frames en) (n_cat en) (st_layout st) ch) as [[ap rest]|] eqn:S; [|split; assumption].
   apply app_eq_nil in Hc. destruct Hc as [Hc1 Hc2].
-  assert (Hld : nonempty ap && negb (last_dominates ap) = false).
-  { destruct (nonempty ap && negb (last_dominates ap)); [discriminate|reflexivity]. }
   assert (Hst : strands ap rest = false) by (destruct (strands ap rest); [discriminate|reflexivity]).
-  pose proof (showfail_step _ _ _ _ _ Hl (Hen _ _ (lookup_In _ _ _ Lk)) S Hld Hst) as Hinv.
+  pose proof (showfail_step _ _ _ _ _ Hl (Hen _ _ (lookup_In _ _ _ Lk)) S Hst) as Hinv.
   cbn [fst st_layout st_entries]. split; [exact Hl|].
   intros n en' Hlk. cbn [st_entries st_layout] in Hlk |- *. apply update_In in Hlk.
   destruct Hlk as [Hlk|[_ Hlk]]; [apply Hen with n; exact Hlk|subst en'; exact Hinv].
@@ -748,6 +786,46 @@ Proof.
   - apply inv_remember; assumption.
   - apply inv_show; assumption.
   - apply inv_showfail; assumption.
+Qed.
+
+(** ** After c71d768 the arrival order of the batches is no class any more *)
+
+Lemma show_no_class : forall st name ch, classes_of st (OShow name ch) = [].
+Proof.
+  intros st name ch. cbn [classes_of]. destruct (lookup name (st_entries st)) as [en|]; [|reflexivity].
+  destruct (show_frames (n_q en) (n_frames en) (n_cat en) (st_layout st) ch) as [nf|]; [|reflexivity].
+  rewrite last_dominates_true. cbn [negb]. rewrite andb_false_r. reflexivity.
+Qed.
+
+Lemma show_good : forall st name ch, good_op st (OShow name ch).
+Proof. intros st name ch. split; [apply show_no_class|exact I]. Qed.
+
+Lemma remember_classes : forall st name q ch c, In c (classes_of st (ORemember name q ch)) ->
+  (c = PayloadTimeField /\ q_tf q = TPayload) \/ (c = LimitNotReapplied /\ q_limit q <> None).
+Proof.
+  intros st name q ch c. cbn [classes_of]. destruct (lookup name (st_entries st)); [intros []|].
+  intros H. apply in_app_or in H. destruct H as [H|H].
+  - destruct (q_tf q); [destruct H|]. destruct H as [<-|[]]. left. auto.
+  - apply in_app_or in H. destruct H as [H|H].
+    + destruct (q_limit q); [|destruct H]. destruct H as [<-|[]]. right. split; [reflexivity|discriminate].
+    + destruct (remember_frames q (st_layout st) ch) as [fs|]; [|destruct H].
+      rewrite last_dominates_true in H. destruct H.
+Qed.
+
+(** REMEMBER of a query on the core timestamp without LIMIT is a good operation for EVERY arrival order *)
+Lemma remember_good : forall st name q ch, q_tf q = TCore -> q_limit q = None -> good_op st (ORemember name q ch).
+Proof.
+  intros st name q ch Htf Hlim. split; [|exact I].
+  destruct (classes_of st (ORemember name q ch)) as [|c r] eqn:E; [reflexivity|]. exfalso.
+  destruct (remember_classes st name q ch c) as [[_ H]|[_ H]]; [rewrite E; left; reflexivity|congruence|congruence].
+Qed.
+
+Lemma showfail_classes : forall st name ch c, In c (classes_of st (OShowFail name ch)) -> c = InterruptedRefresh.
+Proof.
+  intros st name ch c. cbn [classes_of]. destruct (lookup name (st_entries st)) as [en|]; [|intros []].
+  destruct (show_fail_frames (n_q en) (n_frames en) (n_cat en) (st_layout st) ch) as [[ap rest]|]; [|intros []].
+  rewrite last_dominates_true. cbn [negb]. rewrite andb_false_r. cbn [app].
+  destruct (strands ap rest); [|intros []]. intros [<-|[]]. reflexivity.
 Qed.
 
 Lemma inv_init : Inv init.
@@ -934,9 +1012,7 @@ Proof.
   intros st name ch st' out nf m c Hr Hc Hs. pose proof (reach_inv _ Hr) as [Hl Hen].
   destruct (step_show_inv _ _ _ _ _ _ _ _ Hs) as [en [Lk [Sf [Eo _]]]].
   exists en. split; [exact Lk|]. cbn [classes_of] in Hc. rewrite Lk, Sf in Hc.
-  assert (Hld : nonempty nf && negb (last_dominates nf) = false).
-  { destruct (nonempty nf && negb (last_dominates nf)); [discriminate|reflexivity]. }
-  destruct (show_step _ _ _ _ Hl (Hen _ _ (lookup_In _ _ _ Lk)) Sf Hld) as [Hp _]. rewrite <- Eo in Hp.
+  destruct (show_step _ _ _ _ Hl (Hen _ _ (lookup_In _ _ _ Lk)) Sf) as [Hp _]. rewrite <- Eo in Hp.
   split; [exact Hp|].
   eapply Permutation_NoDup; [apply Permutation_map; apply Permutation_sym; exact Hp|].
   unfold sel. apply NoDup_map_filter. apply layout_ok_nodup_keys. exact Hl.
@@ -958,13 +1034,13 @@ Lemma mark_eqb_refl : forall m, mark_eqb m m = true.
 Proof. intros [a b]. unfold mark_eqb; cbn [fst snd]. rewrite !N.eqb_refl. reflexivity. Qed.
 
 Theorem show_idempotent : forall st name ch1 ch2 st1 out1 nf1 m1 c1 st2 out2 nf2 m2 c2,
-  reach st -> good_op st (OShow name ch1) ->
+  reach st ->
   step st (OShow name ch1) = (st1, ObsShow out1 nf1 m1 c1) ->
-  classes_of st1 (OShow name ch2) = [] ->
   step st1 (OShow name ch2) = (st2, ObsShow out2 nf2 m2 c2) ->
   Permutation out2 out1 /\ nf2 = [] /\ m2 = m1 /\ c2 = c1.
 Proof.
-  intros st name ch1 ch2 st1 out1 nf1 m1 c1 st2 out2 nf2 m2 c2 Hr Hg H1 Hc2 H2.
+  intros st name ch1 ch2 st1 out1 nf1 m1 c1 st2 out2 nf2 m2 c2 Hr H1 H2.
+  pose proof (show_good st name ch1) as Hg. pose proof (show_no_class st1 name ch2) as Hc2.
   assert (Hr1 : reach st1).
   { replace st1 with (fst (step st (OShow name ch1))) by (rewrite H1; reflexivity). apply reach_step; assumption. }
   destruct (show_eq_query_core _ _ _ _ _ _ _ _ Hr (proj1 Hg) H1) as [en [Lk [Hp1 _]]].
@@ -978,9 +1054,7 @@ Proof.
   assert (Hlay : st_layout st1 = st_layout st) by (rewrite Est1; reflexivity).
   pose proof (reach_inv _ Hr1) as [Hl1 Hen1]. specialize (Hen1 _ _ (lookup_In _ _ _ Lk1)).
   cbn [classes_of] in Hc2. rewrite Lk1, Sf2 in Hc2.
-  assert (Hld : nonempty nf2 && negb (last_dominates nf2) = false).
-  { destruct (nonempty nf2 && negb (last_dominates nf2)); [discriminate|reflexivity]. }
-  destruct (show_step _ _ _ _ Hl1 Hen1 Sf2 Hld) as [_ [_ Hd]].
+  destruct (show_step _ _ _ _ Hl1 Hen1 Sf2) as [_ [_ Hd]].
   assert (Hnf2 : nf2 = []).
   { (* nothing is above the mark: everything matching is already stored *)
     destruct Hen1 as [_ [Hst _]]. rewrite Een1 in Hst, Hd. cbn [n_q n_frames] in Hst, Hd.
@@ -1105,17 +1179,16 @@ Proof.
     assert (X : existsb (fun e => e_id e =? 0) (content l) = true) by (apply existsb_exists; exists e; auto). congruence. }
   destruct (Hen name en Hin) as [_ [Hp _]].
   apply mle_spec in Hmle. unfold ekey in Hmle; cbn [fst snd] in Hmle.
-  destruct (n_frames en) as [|f0 r0] eqn:Ef.
-  - cbn in Hmle. lia.
-  - rewrite <- Ef in *. assert (Hne : n_frames en <> []) by (rewrite Ef; discriminate).
-    rewrite (frames_mark_last _ Hne) in Hmle. unfold frame_mark in Hmle; cbn [fst snd] in Hmle.
-    assert (Hrows : forall r, In r (last (n_frames en) []) -> In r (content (st_layout st))).
+  destruct (frames_mark_attained (n_frames en)) as [E|[f [Hf E]]]; rewrite E in Hmle.
+  - cbn [fst snd] in Hmle. lia.
+  - unfold frame_mark in Hmle; cbn [fst snd] in Hmle.
+    assert (Hrows : forall r, In r f -> In r (content (st_layout st))).
     { intros r Hr. assert (Hc : In r (concat (n_frames en))).
-      { apply in_concat. exists (last (n_frames en) []). split; [apply last_In; exact Hne|exact Hr]. }
+      { apply in_concat. exists f. split; assumption. }
       eapply Permutation_in in Hc; [|exact Hp]. apply filter_In in Hc. apply Hc. }
-    assert (H1 : max_of e_ts (last (n_frames en) []) <= e_ts e).
+    assert (H1 : max_of e_ts f <= e_ts e).
     { apply max_of_le. intros r Hr. apply (Hmono e He Hn r (Hrows r Hr)). }
-    assert (H2 : max_of e_id (last (n_frames en) []) < e_id e).
+    assert (H2 : max_of e_id f < e_id e).
     { apply max_of_lt_all; [exact Hid|]. intros r Hr. apply (Hmono e He Hn r (Hrows r Hr)). }
     lia.
 Qed.
@@ -1139,13 +1212,13 @@ Fixpoint side_ok (st : state) (ops : list op) : bool :=
 Definition q_all : query := mkQuery None None None TCore true None.
 Definition ev (k ts pt id : N) : event := mkEvent k ts pt id 0 0.
 
-(** (1) MarkOfLastFrame — one shard, an older event in a segment, a newer one in the memtable; REMEMBER
+(** (1) formerly MarkOfLastFrame (fixed by c71d768; kept as a positive example below) — one shard, an older event in a segment, a newer one in the memtable; REMEMBER
     receives the memtable batch first, the segment batch last: the mark is the segment's, the next SHOW
     delivers the memtable event again. *)
 Definition w_lastframe : list op :=
   [ OSetLayout [mkShard [ev 2 20 0 200] [mkSeg 20 [[ev 1 10 0 100]]]];
     ORemember 1 q_all [(0, []); (1, [])];
-    OShow 1 [(0, [])] ].
+    OShow 1 [] ].
 
 (** (2) PayloadTimeField — USING pt: an event whose payload time is above the core-timestamp mark is
     delivered again by every SHOW; an event arriving later with a payload time below the mark never shows. *)
@@ -1233,8 +1306,15 @@ Ltac witness :=
   split; [vm_compute; intros H; repeat (destruct H as [H|H]; [discriminate H|]); contradiction|
   apply refuted_by; vm_compute; reflexivity]]].
 
-Theorem show_eq_query_refuted_lastframe : witness_of MarkOfLastFrame w_lastframe.
-Proof. witness. Qed.
+(** the former MarkOfLastFrame witness (memtable batch stored before the segment batch): no class is flagged, the
+    arrival order is admissible, the SHOW is an answer *)
+Example former_lastframe_witness_now_exact :
+  classes_along init w_lastframe = [] /\ ~ In ObsBadChoice (run init w_lastframe) /\ shows_ok_b init w_lastframe = true
+  /\ no_known init w_lastframe.
+Proof.
+  split; [vm_compute; reflexivity|]. split; [vm_compute; intros H; repeat (destruct H as [H|H]; [discriminate H|]); contradiction|].
+  split; [vm_compute; reflexivity|]. cbn [no_known w_lastframe]. repeat split; vm_compute; reflexivity.
+Qed.
 Theorem show_eq_query_refuted_payload_dup : witness_of PayloadTimeField w_payload_dup.
 Proof. witness. Qed.
 Theorem show_eq_query_refuted_payload_lost : witness_of PayloadTimeField w_payload_lost.
@@ -1256,7 +1336,7 @@ Theorem show_eq_query_refuted_interrupted : witness_of InterruptedRefresh w_inte
 Proof. witness. Qed.
 
 Theorem show_eq_query_refuted : exists ops, side_ok init ops = true /\ ~ shows_ok init ops.
-Proof. exists w_lastframe. destruct show_eq_query_refuted_lastframe as [H [_ [_ H']]]. split; assumption. Qed.
+Proof. exists w_payload_dup. destruct show_eq_query_refuted_payload_dup as [H [_ [_ H']]]. split; assumption. Qed.
 
 (** ** The hypotheses of the positive theorems are satisfiable: a history over two shards with events before
     REMEMBER, between REMEMBER and SHOW and between SHOWs, a flush, a compaction-like re-zoning, an event on
